@@ -639,6 +639,12 @@ def generate(run_seed, tier='quick'):
     g = ops.G(rng, dims, thorough)
     g.big = bool(rng.uniform() < (0.10 if thorough else 0.06))
     mode = g.choice(['reuse', 'split', 'broad'])
+    if rng.uniform() < 0.05:
+        # a session of the stateless modules on large inputs (size-dependent
+        # code paths: blockwise processing, "in place if large", scratch
+        # buffers): metrics on long recordings, masks / PSDs / aligners on
+        # many frames
+        mode, g.big = 'big', True
     fault_kinds = g.choice([[], [], ['interrupt'], ['cancel'], ['lapack'],
                             ['interrupt', 'cancel', 'lapack']])
     n_ops = int(rng.randint(5, 61 if thorough else 26))
@@ -680,7 +686,16 @@ def generate(run_seed, tier='quick'):
             program_ops.append({'op': 'env.seterr',
                                 'mode': g.choice(['raise', 'warn', 'ignore'])})
 
-    if mode == 'reuse':
+    if mode == 'big':
+        fault_kinds = []
+        pool = [n for n in names if ops.ENTRIES[n].group in (
+            'metric', 'metric', 'mask', 'beamformer', 'alignment')]
+        weights = [ops.ENTRIES[n].weight * (4 if ops.ENTRIES[n].group == 'metric' else 1)
+                   for n in pool]
+        for _ in range(int(rng.randint(6, 13))):
+            name = _weighted_choice(rng, pool, weights)
+            push(name, ops.ENTRIES[name].gen(g))
+    elif mode == 'reuse':
         kinds = [g.choice(['cwmm', 'cwmm', 'cbmm', 'cacgmm', 'gmm', 'vmfmm',
                            'gcacgmm', 'vmfcacgmm', 'dist:watson',
                            'dist:watson', 'dist:bingham'])
